@@ -1,5 +1,9 @@
 """C15 - all observation channels of a simulation agree; illegal inputs are refused."""
 from elab import passcheck
+
+
+def _reraise():
+    raise
 from fam import designs
 
 SIMS = ('Simulation', 'FastSimulation', 'CompiledSimulation')
@@ -12,7 +16,8 @@ def _call(task):
     try:
         return fn(**task['kw'])
     except Exception:
-        return dict(failed=True, observed=traceback.format_exc()[-900:], expected='no exception')
+        from vlib.guard import guarded
+        return guarded(_reraise)
 
 
 def run(ctx):
@@ -36,7 +41,9 @@ def run(ctx):
     byfn = {}
     for t, r in zip(tasks, res):
         byfn[t['fn']] = byfn.get(t['fn'], 0) + 1
-        if r['failed']:
+        if r.get('crashed'):
+            ctx.crashes.append('C15.%s: %s' % (t['fn'], r['observed'][-400:]))
+        elif r['failed']:
             kw = t['kw']
             label = ','.join('%s=%s' % (k, passcheck._dname(v) if k == 'design' else v)
                              for k, v in sorted(kw.items()))
